@@ -22,7 +22,9 @@ var Rigs = map[string]sim.Rig{
 	"C19h": {Name: "h2push", Run: runH2Push},
 	"C12":  {Name: "site", Run: runSite("C12")},
 	"C18":  {Name: "site", Run: runSite("C18")},
-	"C20":  {Name: "site", Run: runSite("C20")},
+	"C20":  {Name: "site+http2", Run: runC20},
+	"C20s": {Name: "site", Run: runSite("C20")},
+	"C20h": {Name: "http2", Run: runH2("C20")},
 	"C17b": {Name: "site", Run: runSite("C17")},
 	"C17l": {Name: "listener", Run: runListenerLimits},
 	"C17":  {Name: "limits", Run: runC17},
@@ -40,6 +42,18 @@ func runC19(c *sim.Ctl) {
 	i := c.T.Stream("sub").Draw(len(subs))
 	c.Params["surface"] = subs[i].name
 	subs[i].f(c)
+}
+
+// runC20: the site rig (HTTP/1.1, every wrapping directive, placeholders), or
+// one time in six the HTTP/2 rig (other ResponseWriter underneath the recorder).
+func runC20(c *sim.Ctl) {
+	if c.T.Stream("sub").Draw(6) == 0 {
+		c.Params["surface"] = "http2"
+		runH2("C20")(c)
+		return
+	}
+	c.Params["surface"] = "http1-site"
+	runSite("C20")(c)
 }
 
 // runC17: body limits (site rig) or shared listener settings (listener rig).
